@@ -350,6 +350,7 @@ func main() {
 	corpus := flag.String("corpus", "", "")
 	replay := flag.String("replay", "", "")
 	stressMs := flag.Int("stress-ms", 700, "")
+	withCluster := flag.Bool("cluster", true, "run the three-member cluster phase")
 	flag.Parse()
 
 	R := res.New("C05", *seed, *tier)
@@ -359,6 +360,10 @@ func main() {
 		"answers and real-time order, and CalSuffixBits / differentiateLogical on their whole domains; non-trivial = a case with a Global request whose " +
 		"answer came from the fall-back to a local maximum and at least one SetTSO; distinct by sha256 of canonical (ops,obs)"
 
+	prep := make(chan *prepared, 1)
+	if *withCluster && *replay == "" {
+		go func() { prep <- prepareCluster() }()
+	}
 	cfg, err := srv15.Config()
 	if err != nil {
 		panic(err)
@@ -481,6 +486,9 @@ func main() {
 		}
 		w.stress(R, time.Duration(*stressMs)*time.Millisecond)
 		w.leaderless(R)
+		if *withCluster {
+			clusterPhase(R, <-prep)
+		}
 	}
 	if err := cf.Flush(); err != nil {
 		panic(err)
@@ -511,6 +519,23 @@ func main() {
 	R.CountN("pure:CalSuffixBits-values", len(bl))
 	R.CountN("pure:differentiateLogical-values", len(dl))
 	R.CaseFiles = append(cf.Files, pf)
+	if joinCase != nil {
+		// the cluster phase's history, replayed on model/C05_Join.v: (who, suffix, width) of every answer
+		jf := path.Join(*out, "cases_C05_join.v")
+		src := "From Coq Require Import ZArith List.\nFrom PDV Require Import lib.Base model.C05_TsoGlobal model.C05_Join.\nImport ListNotations.\nLocal Open Scope Z_scope.\n" +
+			"Definition hist : list jlabel := " + coqfmt.List(joinCase.labels) + ".\n" +
+			"Definition observed : list (option nat * Z * Z) := " + coqfmt.List(joinCase.obs) + ".\n" +
+			"Definition predicted := map (fun r => (jwho r, jsfx r, jw r)) (rev (jout (jreach 1 (1000, 0) hist))).\n" +
+			"Definition obs_eqb (a b : option nat * Z * Z) : bool := match a, b with (w1, s1, b1), (w2, s2, b2) => opt_eqb Nat.eqb w1 w2 && (s1 =? s2) && (b1 =? b2) end.\n" +
+			"Definition M := Eval vm_compute in match diff_at obs_eqb 0 predicted observed with [] => [] | _ => [0%nat] end.\n" +
+			"Definition D := Eval vm_compute in (diff_at obs_eqb 0 predicted observed, length predicted, length observed).\n" +
+			"Definition V : list nat := [].\nPrint M. Print D. Print V.\n"
+		if err := os.WriteFile(jf, []byte(src), 0o644); err != nil {
+			panic(err)
+		}
+		R.CountN("cluster:answers-replayed-on-the-join-model", len(joinCase.obs))
+		R.CaseFiles = append(R.CaseFiles, jf)
+	}
 	b, _ := json.Marshal(all)
 	os.WriteFile(path.Join(*out, "cases.json"), b, 0o644)
 	if err := R.Write(path.Join(*out, "result.json")); err != nil {
